@@ -24,6 +24,8 @@ CLAIMED = {
    text='C02_forward: any halfword a generated c.* encoder returns (all operand spellings, ALL integers) is a legal non-hint non-reserved RV32C encoding '
         'whose decode16 names the operands; C02_converse: each of the 65 536 halfwords that decode16 accepts is produced from its canonical operands; '
         'C02_injective; C02_line_end_to_end: an explicitly written compressed instruction (two registers, or register + literal) goes through the parser model and all 16 passes to exactly the two little-endian bytes of the encoder\'s halfword. Proof: symbolic guard extraction per mnemonic + in-kernel sweep (vm_compute) over the complete guard box of every mnemonic and over all halfwords. '
+        'FROM THE TEXT (Spec/Print16.v, Proofs/TextConverse*.v, sub-agent): C02_text_converse -- for EVERY halfword h that decode16 accepts, its canonical text (mnemonic, xN registers, decimal immediates; written from the instruction reference, independent of the assembler) '
+        'lexes to its tokens and goes through the parser model and all 16 passes -- compression off and on, in any separator style -- to exactly the two bytes of h; C02_text_injective -- canonical texts and legal halfwords correspond one-to-one; C02_text_paren / C02_text_lui_hex for the documented second spellings. '
         'Falsifier: all tuples in and around the legal sets on the real encoders; all 65 536 halfwords re-assembled from canonical text by the real assembler.',
    note='Trusted: as C01 plus the vm_compute machine for the finite sweeps; Spec/RVC.v decode16 (cross-checked: accepts 28 461 halfwords).',
    technique='Coq proof: symbolic guard lemmas + exhaustive in-kernel sweeps over generated encoders; exhaustive falsifier',
